@@ -403,6 +403,7 @@ func runC11(c C11Case, cs *kit.CaseStats) error {
 	// ---- active lies (relays), repeated a few times
 	tipNode := func() *kit.TNode { return tr.ByID[victim.Node.CM.Tip().ID] }
 	relaysSent := map[int]int{}
+	settledShots := map[int]int{}
 	relayAtH := map[int]bool{}
 	sendRelay := func(i int) {
 		b := byz[i]
@@ -531,7 +532,8 @@ func runC11(c C11Case, cs *kit.CaseStats) error {
 				mu.Lock()
 				conn := bconn[i]
 				mu.Unlock()
-				if strings.HasPrefix(b.Corr.RPC, "relay") && conn != nil && relaysSent[i] < 2 {
+				if strings.HasPrefix(b.Corr.RPC, "relay") && conn != nil && settledShots[i] < 2 {
+					settledShots[i]++
 					sendRelay(i)
 					pendingRelay = true
 				}
@@ -615,6 +617,35 @@ func runC11(c C11Case, cs *kit.CaseStats) error {
 		_, banned := victim.Store.BannedHost(b.IP)
 		if banned {
 			cs.Class("banned:" + key)
+		}
+		// "invalid block": the peer handed over, unaltered, a block core rejects
+		// on a branch that outweighs everything the victim can be on
+		if bt != nil && !bt.Valid() {
+			off := b.Offered()
+			for a := bt; a != nil; a = a.Parent {
+				if a.OwnInvalid && off[a.ID] {
+					headerSafe := false
+					for _, k := range headerSafeCorruptions {
+						if k == a.Corrupt {
+							headerSafe = true
+						}
+					}
+					if banned {
+						cs.Class("invalid-block-delivered:banned")
+					} else if quiescent && headerSafe && (rpc == "none" || strings.HasPrefix(rpc, "relay")) && bt.Hdr.SufficientlyHeavierThan(H.Ledger.State) {
+						// no lie on the sync RPCs, the header chain is valid and heavier
+						// than anything the victim can hold: the victim fetched this
+						// chain from this peer, so the invalid block was validated
+						return fmt.Errorf("Byzantine peer %d (%s) delivered block %v, which core rejects (%v), on a branch sufficiently heavier than the honest chain, but the peer store never saw a Ban of its address (bans: %v)", i, b.IP, a.Index(), a.Err, victim.Store.Bans())
+					} else {
+						cs.Class("invalid-block-delivered:NOT-banned:" + a.Corrupt + "/" + key)
+						if os.Getenv("VERIF_NET_DEBUG") != "" {
+							js, _ := json.Marshal(c)
+							fmt.Printf("NOT-BANNED byz=%d bad=%v kind=%s heavier=%v case=%s\n", i, a.Index(), a.Corrupt, bt.Hdr.SufficientlyHeavierThan(H.Ledger.State), js)
+						}
+					}
+				}
+			}
 		}
 		// provable offences the code names: a Ban call must have been made
 		expect := ""
